@@ -244,5 +244,54 @@ theorem timedCore_hmmss (hA : asciiDigitsOK = true) (disc : Str) (h m : Nat) (hh
     Bool.not_true, hno, hsp, pyInt_natStr hA h, hpm, hf]
 
 
+theorem timedCore_mss_nodist (hA : asciiDigitsOK = true) (disc : Str) (m : Nat) (hm : 0 < m) (sec : Str)
+    (hg : getDistance 8 disc = .ok none) (hsc : ∀ ch ∈ sec, ch ≠ ':')
+    (f : Nat × Nat × Nat) (hf : floatOf sec = some f) :
+    timedCore disc (natStr m ++ ':' :: sec) = timedDecide disc none 0 m f.1 f.2.1 f.2.2 := by
+  obtain ⟨d0, rest, hnat, hd0, hd10⟩ := natStr_head m hm
+  have hne0 : digitChar0 d0 ≠ '0' := fun e => by have := (digitChar0_eq_zero d0 hd10).1 e; omega
+  have ht : natStr m ++ ':' :: sec = digitChar0 d0 :: (rest ++ ':' :: sec) := by rw [hnat]; rfl
+  have h0 : startsWith (natStr m ++ ':' :: sec) "0:" = false := by
+    rw [ht]; exact startsWith_head_ne _ _ "0:" '0' [':'] rfl hne0
+  have h00 : startsWith (natStr m ++ ':' :: sec) "00:" = false := by
+    rw [ht]; exact startsWith_head_ne _ _ "00:" '0' ['0', ':'] rfl hne0
+  have hsp : splitOn ':' (natStr m ++ ':' :: sec) = [natStr m, sec] :=
+    splitOn_one ':' sec hsc (natStr m) (natStr_no_colon m)
+  unfold timedCore
+  rw [hg]
+  simp only [h0, h00, Bool.false_eq_true, if_false, Bool.false_and]
+  by_cases hc : (strIn disc ["800", "1500", "3000"] && !(natStr m ++ ':' :: sec).contains '.') = true
+  · simp only [hc, if_true, hsp, pyInt_natStr hA m, hf]
+  · simp only [hc, Bool.false_eq_true, if_false, hsp, pyInt_natStr hA m, hf]
+
+theorem timedCore_hmmss_nodist (hA : asciiDigitsOK = true) (disc : Str) (h m : Nat) (hh : 0 < h) (hm : m < 60) (sec : Str)
+    (hg : getDistance 8 disc = .ok none)
+    (hno : strIn disc ["800", "1500", "3000"] = false) (hsc : ∀ ch ∈ sec, ch ≠ ':')
+    (f : Nat × Nat × Nat) (hf : floatOf sec = some f) :
+    timedCore disc (natStr h ++ ':' :: (twoDigits m ++ ':' :: sec)) = timedDecide disc none h m f.1 f.2.1 f.2.2 := by
+  obtain ⟨d0, rest, hnat, hd0, hd10⟩ := natStr_head h hh
+  have hne0 : digitChar0 d0 ≠ '0' := fun e => by have := (digitChar0_eq_zero d0 hd10).1 e; omega
+  have ht : natStr h ++ ':' :: (twoDigits m ++ ':' :: sec) = digitChar0 d0 :: (rest ++ ':' :: (twoDigits m ++ ':' :: sec)) := by
+    rw [hnat]; rfl
+  have h0 : startsWith (natStr h ++ ':' :: (twoDigits m ++ ':' :: sec)) "0:" = false := by
+    rw [ht]; exact startsWith_head_ne _ _ "0:" '0' [':'] rfl hne0
+  have h00 : startsWith (natStr h ++ ':' :: (twoDigits m ++ ':' :: sec)) "00:" = false := by
+    rw [ht]; exact startsWith_head_ne _ _ "00:" '0' ['0', ':'] rfl hne0
+  have htw : ∀ ch ∈ twoDigits m, ch ≠ ':' := by
+    intro ch hch
+    simp only [twoDigits_eq, List.mem_cons, List.mem_nil_iff, or_false] at hch
+    rcases hch with rfl | rfl
+    · exact digitChar0_ne_colon _ (Nat.mod_lt _ (by omega))
+    · exact digitChar0_ne_colon _ (Nat.mod_lt _ (by omega))
+  have hsp : splitOn ':' (natStr h ++ ':' :: (twoDigits m ++ ':' :: sec)) = [natStr h, twoDigits m, sec] := by
+    rw [splitOn_cons_sep ':' _ (natStr h) (natStr_no_colon h), splitOn_cons_sep ':' _ (twoDigits m) htw,
+      splitOn_no_sep ':' sec hsc]
+  have hpm : pyInt (twoDigits m) = .ok m := by
+    rw [twoDigits_eq, pyInt_two hA _ _ (Nat.mod_lt _ (by omega)) (Nat.mod_lt _ (by omega))]
+    congr 1; omega
+  unfold timedCore
+  rw [hg]
+  simp only [h0, h00, Bool.false_eq_true, if_false, Bool.false_and, hno, hsp, pyInt_natStr hA h, hpm, hf]
+
 end Perf
 end AthlibVerif
